@@ -190,7 +190,8 @@ def close(got, ref, scale, eps, factor=1e4, rel=0.0):
             # unless the reference itself is near the overflow threshold of
             # the working precision (then the case is out of range: ambiguous)
             if np.all(np.isfinite(ref)):
-                big = 1e30 if eps > 1e-10 else 1e290
+                # (norms are computed as sqrt(sum |x|^2): squares overflow first)
+                big = 1e15 if eps > 1e-10 else 1e150
                 if max(float(np.abs(ref).max()), scale) > big:
                     return None, float("inf"), 0.0
                 return False, float("inf"), 0.0
